@@ -59,9 +59,9 @@ CHECKS = {
             'SM: out-of-step with equal parity is unspecified (the MAC does not cover the counter) and only checked for memory safety',
             'ground-truth predicates for issuance/validation are assembled from the conditions listed in btok.h only',
             'a single flipped bit anywhere in a stored certificate or container must make validation/unwrapping fail (forgery probability 2^-64 ignored)',
-            'the hidden global RNG is absent (rngIsValid() false), so CVC signing is deterministic',
+            'the hidden global RNG (rngIsValid()/rngStepR inside CVC signing) is absent in two thirds of the cvc runs and created on simulated entropy (H-rng-es) in one third',
         ],
-        'mandatory_probes': {'any': ['probe.sm_instep_roundtrip', 'probe.sm_altered_checked', 'probe.sm_wrong_parity_refused', 'probe.cvc_parse_back', 'fault.cvc_clock_outside_validity', 'fault.cvc_stored_bit_flip', 'probe.pki_intact_roundtrip', 'fault.pki_wrong_password']},
+        'mandatory_probes': {'any': ['probe.sm_instep_roundtrip', 'probe.sm_altered_checked', 'probe.sm_wrong_parity_refused', 'probe.cvc_parse_back', 'probe.cvc_global_rng_present', 'fault.cvc_clock_outside_validity', 'fault.cvc_stored_bit_flip', 'probe.pki_intact_roundtrip', 'fault.pki_wrong_password']},
     },
     'C18': {
         'level': 'exploration',
